@@ -8,7 +8,7 @@ package agent
 // the way Test_AgentQueue builds them.  Every behaviour runs on TWO agents:
 //   A  empty mapping cache, tags in canonical order with canonical keys;
 //   B  mapping cache that knows every tag value, tags in a seeded random order, addressed by
-//      name / by number / (sometimes) by the legacy "keyN" alias.
+//      name / by number / (sometimes) by the legacy "keyN" alias, sometimes with an unknown tag.
 // Events of kind "metric" take the real path Agent.Map -> Agent.ApplyMetric (counter / value /
 // unique payloads, so ApplyCounter, ApplyValues and ApplyUnique are all exercised), events of kind
 // "api" the builtin path (AddCounterS, AddValueCounterS, MergeItemValue, AddCounterHostAERA).
@@ -78,19 +78,42 @@ type verifC08Env struct {
 	closed  bool
 }
 
+// Specification metrics 50..69 / 70..89 are "hardware" metrics (MetricID <= -1000, fast / slow): their
+// resolution is not the metric's own (60 here) but the one configured in the shard.
+func verifC08Hardware(id int) (hw, slow bool) { return id >= 50 && id < 90, id >= 70 && id < 90 }
+
+func verifC08MetricID(id int) int32 {
+	if hw, _ := verifC08Hardware(id); hw {
+		return int32(-1000 - id)
+	}
+	return int32(id)
+}
+
+func verifC08SpecID(metric int32) int {
+	if format.HardwareMetric(metric) {
+		return int(-metric) - 1000
+	}
+	return int(metric)
+}
+
 func verifC08Meta(ms verifC08MetricSpec, nshards int) (*format.MetricMetaValue, error) {
 	m := &format.MetricMetaValue{
-		MetricID:   int32(ms.ID),
+		MetricID:   verifC08MetricID(ms.ID),
 		Name:       "verif_c08_m" + strconv.Itoa(ms.ID),
 		Kind:       format.MetricKindMixed,
 		Resolution: ms.Res,
 		Tags: []format.MetricMetaTag{{}, {Name: "ev"}, {Name: "x"}, {Name: "r", RawKind: "uint"}, {Name: "y"}},
 	}
+	hw, slow := verifC08Hardware(ms.ID)
+	if hw {
+		m.Resolution = 60
+		m.IsHardwareSlowMetric = slow
+	}
 	// three ways of fixing the primary shard, all must agree with the specification's `sh`
-	switch ms.ID % 3 {
-	case 0:
+	switch {
+	case hw || ms.ID%3 == 0:
 		m.ShardFixedKey = uint32(ms.Sh)
-	case 1:
+	case ms.ID%3 == 1:
 		m.ShardStrategy = format.ShardFixed
 		m.ShardNum = uint32(ms.Sh - 1)
 	default:
@@ -107,7 +130,7 @@ func verifC08Meta(ms verifC08MetricSpec, nshards int) (*format.MetricMetaValue, 
 	if err := m.RestoreCachedInfo(); err != nil {
 		return nil, err
 	}
-	if m.EffectiveResolution != ms.Res {
+	if !hw && m.EffectiveResolution != ms.Res {
 		return nil, fmt.Errorf("resolution %d is not an allowed resolution (effective %d)", ms.Res, m.EffectiveResolution)
 	}
 	return m, nil
@@ -163,6 +186,15 @@ func verifC08NewEnv(cfg *verifC08Config, name string, cache *pcache.MappingsCach
 		for j := 0; j < superQueueLen; j++ {
 			shard.SuperQueue[j] = &data_model.MetricsBucket{}
 		}
+		shard.hardwareMetricResolutionResolved.Store(1)
+		shard.hardwareSlowMetricResolutionResolved.Store(1)
+		for _, ms := range cfg.Metrics {
+			if hw, slow := verifC08Hardware(ms.ID); hw && slow {
+				shard.hardwareSlowMetricResolutionResolved.Store(int32(ms.Res))
+			} else if hw {
+				shard.hardwareMetricResolutionResolved.Store(int32(ms.Res))
+			}
+		}
 		shard.cond = sync.NewCond(&shard.mu)
 		shard.BucketsToPreprocess = make(chan *data_model.MetricsBucket, 1) // as MakeAgent
 		if full {                                                           // the preprocessor has not taken the previous second yet
@@ -200,7 +232,7 @@ func verifC08NewEnv(cfg *verifC08Config, name string, cache *pcache.MappingsCach
 // verifC08ItemID maps a row of the ring to the specification's item id (0, false: a row the
 // model does not know).
 func (e *verifC08Env) itemID(k *data_model.Key) (int, bool) {
-	if _, ok := e.metas[int(k.Metric)]; ok && k.Metric > 0 {
+	if m, ok := e.metas[verifC08SpecID(k.Metric)]; ok && m.MetricID == k.Metric {
 		if s := k.STags[1]; s != "" {
 			if !strings.HasPrefix(s, "e") {
 				return 0, false
@@ -215,8 +247,8 @@ func (e *verifC08Env) itemID(k *data_model.Key) (int, bool) {
 	}
 	switch k.Metric {
 	case format.BuiltinMetricIDIngestionStatus:
-		m := int(k.Tags[1])
-		if _, ok := e.metas[m]; !ok {
+		m := verifC08SpecID(k.Tags[1])
+		if mm, ok := e.metas[m]; !ok || mm.MetricID != k.Tags[1] {
 			return 0, false
 		}
 		if k.Tags[2] == format.TagValueIDSrcIngestionStatusWarnTimestampClampedFuture {
@@ -404,6 +436,11 @@ func (e *verifC08Env) metricBytes(meta *format.MetricMetaValue, ts uint32, id, j
 		}
 		m.Tags = append(m.Tags, tl.DictFieldStringStringBytes{Key: []byte(key), Value: []byte(t.val)})
 	}
+	if !canonical && e.rnd.Intn(4) == 0 {
+		// a tag the metric does not have: warning row through AddCounterHostStringBytesSrcIngestionStatus,
+		// same second and slot as the status row; not part of the original values of a known tag
+		m.Tags = append(m.Tags, tl.DictFieldStringStringBytes{Key: []byte("zzz"), Value: []byte("q")})
+	}
 	switch id % 3 {
 	case 0:
 		m.Counter = 1
@@ -433,8 +470,8 @@ func (e *verifC08Env) mapHeader(meta *format.MetricMetaValue, m *tlstatshouse.Me
 
 // verifC08FindJ searches the free tag value whose OriginalHash (of the real mapping of agent A)
 // falls into spread index want.
-func (e *verifC08Env) findJ(meta *format.MetricMetaValue, ts uint32, id, want int, clock time.Time) (int, error) {
-	res := uint64(meta.EffectiveResolution)
+func (e *verifC08Env) findJ(meta *format.MetricMetaValue, specRes int, ts uint32, id, want int, clock time.Time) (int, error) {
+	res := uint64(specRes)
 	for j := 0; j < verifC08MaxX; j++ {
 		m := e.metricBytes(meta, ts, id, j, true)
 		h, err := e.mapHeader(meta, m, clock)
@@ -488,6 +525,7 @@ type verifC08Runner struct {
 	cfg   *verifC08Config
 	res   *verifkit.Result
 	cache *pcache.MappingsCache
+	res4  map[int]int // specification metric -> resolution
 }
 
 func verifC08Clock(sec int, half bool, r *rand.Rand) time.Time {
@@ -544,8 +582,8 @@ func (rn *verifC08Runner) replay(t *testing.T, bi int, beh []verifkit.Step) (ok 
 				return false
 			}
 			j := 0
-			if kind == "metric" && envA.metas[metric] != nil && envA.metas[metric].EffectiveResolution != 1 {
-				if j, err = envA.findJ(envA.metas[metric], ts, id, want, clock); err != nil {
+			if kind == "metric" && envA.metas[metric] != nil && rn.res4[metric] != 1 {
+				if j, err = envA.findJ(envA.metas[metric], rn.res4[metric], ts, id, want, clock); err != nil {
 					rn.res.Count("driver_errors", 1)
 					rn.res.Note("behaviour %d step %d: %v", bi, i, err)
 					return false
@@ -709,7 +747,10 @@ func TestVerifC08Replay(t *testing.T) {
 		res.Note("specification instance %d/%d does not match the code %d/%d", cfg.QLen, cfg.Future, superQueueLen, superQueueFutureSlots)
 		return
 	}
-	rn := &verifC08Runner{cfg: cfg, res: res, cache: verifC08FullCache(cfg.T0)}
+	rn := &verifC08Runner{cfg: cfg, res: res, cache: verifC08FullCache(cfg.T0), res4: map[int]int{}}
+	for _, ms := range cfg.Metrics {
+		rn.res4[ms.ID] = ms.Res
+	}
 	{ // where does __timing_errors go
 		env, err := verifC08NewEnv(cfg, "probe", rn.cache, true, 0, 2, false)
 		if err != nil {
